@@ -3,6 +3,7 @@ package drv
 import (
 	"context"
 	"fmt"
+	"sync"
 	"time"
 
 	"google.golang.org/grpc"
@@ -112,6 +113,9 @@ func (sv *service) serve(ctx context.Context, shape string, ss grpc.ServerStream
 		s.mu.Unlock()
 		_ = aux
 	}()
+	if s.free.Load() {
+		return s.serveFree(r, a, shape, n)
+	}
 	for {
 		select {
 		case st := <-a.cmds:
@@ -223,4 +227,60 @@ func (s *Session) handlerOp(r *rpcState, a *actor, st Step) {
 		s.opStart(a, st, nil)
 		s.opRet(a, st, errFields(tr.E{}, fmt.Errorf("unknown op %q", st.Op)))
 	}
+}
+
+// serveFree runs the handler's scripts on their own (free-running mode).
+func (s *Session) serveFree(r *rpcState, a *actor, shape string, n int) (any, error) {
+	s.mu.Lock()
+	rs := s.scripts[n]
+	s.mu.Unlock()
+	var wg sync.WaitGroup
+	if aux := rs.S["a"]; len(aux) > 0 {
+		ax := &actor{end: "s", rpc: n, name: "a", cmds: make(chan Step)}
+		s.mu.Lock()
+		r.hact["a"] = ax
+		s.mu.Unlock()
+		wg.Add(1)
+		go func() {
+			defer wg.Done()
+			for _, st := range aux {
+				st.Do, st.End, st.Rpc, st.Act = "op", "s", n, "a"
+				stc := st
+				ax.setCur(&stc)
+				s.handlerOp(r, ax, st)
+				ax.setCur(nil)
+			}
+		}()
+	}
+	for _, st := range rs.S["m"] {
+		st.Do, st.End, st.Rpc, st.Act = "op", "s", n, "m"
+		if st.Op == "send" && s.sendFailed(n, "s") {
+			continue
+		}
+		if st.Op == "ret" {
+			wg.Wait()
+			s.opStart(a, st, tr.E{"code": st.Code, "msg": st.Msg, "det": StatusDet(st.Det), "n": st.N, "size": WireSize(max(st.N, 0))})
+			err := mkStatus(st.Code, st.Msg, st.Det)
+			var resp any
+			if shape == "unary" && st.N >= 0 {
+				idx := r.sentS
+				r.sentS++
+				resp = Msg(n, "s", idx, st.N)
+			}
+			s.mu.Lock()
+			r.hlive = false
+			s.mu.Unlock()
+			s.opRet(a, st, errFields(tr.E{}, nil))
+			return resp, err
+		}
+		stc := st
+		a.setCur(&stc)
+		s.handlerOp(r, a, st)
+		a.setCur(nil)
+	}
+	wg.Wait()
+	s.mu.Lock()
+	r.hlive = false
+	s.mu.Unlock()
+	return nil, status.Error(codes.Aborted, "script without return")
 }
